@@ -10,6 +10,9 @@ LEVEL = "model_checking"
 
 def run(ctx):
     ctx.build_mvh()
+    # timed implementation-shaped model of a client endpoint (connect with its dial timeout, reconnect period, one channel at a
+    # time, read deadline armed per Read) against the rules of ReconnRule - the predicates the trace monitor applies with slack
+    ctx.mc("IClient", "IClient.cfg", timeout=1200, heap="8g")
     rng = random.Random(ctx.seed)
     scs = scenarios.fam_faults(rng, ctx.thorough()) + scenarios.fam_events_server(rng, 30 if ctx.thorough() else 6) + scenarios.fam_udp(rng, 20 if ctx.thorough() else 4)
     _node.run_family(ctx, scs, ["C14.", "C10.open_event_arrives", "C10.close_event_arrives_after_failure"], family="faults",
@@ -17,7 +20,8 @@ def run(ctx):
         "read error on custom transports repeated 1..5 times; TCP client against a fake server that refuses, accepts-then-closes, "
         "drops an established connection (reconnect delay measured after every failure, reconnect period shortened to 100 ms through "
         "the verif setter); serial endpoint with an opener failing n times; TCP/UDP servers with several peers, a dropped peer and a "
-        "later one; idle expiry with a silent and a steadily fed peer (idle timeout 300 ms); distinct = scenario shapes"))
+        "later one; idle expiry with a silent and a steadily fed peer on TCP/UDP servers and on TCP/UDP clients (first connection silent, "
+        "re-opened connection fed; idle timeout 300 ms); UDP client and broadcast endpoints with a fake peer; distinct = scenario shapes"))
     timed(ctx)
     ctx.assumptions += ["timing tolerances: reconnect in [0.9 x period - 5 ms, period + 3 s], idle close in [timeout - 20 ms, timeout + 3 s]",
                         "serial devices are faked through VerifSetSerialOpenFunc (hook_needed of the property)"]
